@@ -27,6 +27,9 @@ type ReadWriter interface {
 	Close() error
 
 	Size() (int64, error)
+
+	// Truncate 将文件逻辑大小截断为 size, 后续写入从该位置继续
+	Truncate(size int64) error
 }
 
 // NewReadWriter 根据配置创建具体的文件 IO 实现
